@@ -18,6 +18,9 @@ import AmVerif.Lemmas.Reload
   same file / directory content, same cached *value* or absent in both), then the evaluation under
   `(env', t)` is a tracked hit-only run too, with the same outcome and the same record `D`.
 * `reloadEval_readset` — the same for the evaluation a reload performs (`reloadEval`).
+* `eval_topMono` — every evaluation (any loader) only adds to the top recording frame;
+  `hitRun_of_plain` — a `Plain` loader under an all-hot environment runs tracked hit-only as soon as
+  every asset it records is cached; `eval_readset_plain` — determinacy stated with `Prog.Plain`.
 -/
 namespace AmVerif.Model
 open AmVerif.Gen
@@ -646,5 +649,21 @@ theorem hitRun_of_plain {env : Env} (hhot : env.Hot) : ∀ (f : Nat) (p : Prog) 
         have := hc key hin
         rw [hl] at this
         cases this
+
+/-- **Read-set determinacy, for `Plain` loaders** (the formulation with a predicate on `Prog`): under
+an all-hot environment, if the evaluation of a plain loader records the dependency list `D`, every
+asset of `D` is cached (so every `.load` was a hit), and `(env', t)` agrees with `(env, s)` on `D`,
+then the evaluation under `(env', t)` has the same outcome, records the same `D`, and both leave the
+map alone. -/
+theorem eval_readset_plain {env env' : Env} (hS : env.Steady) (hS' : env'.Steady) (hL : SameLoaders env env')
+    (hhot : env.Hot) (f : Nat) (p : Prog) (hp : p.Plain) (s t : St) (ds : List Dep) (rs rt : List (Option (List Dep)))
+    (hs : s.recs = some ds :: rs) (ht : t.recs = some ds :: rt)
+    (hcached : ∀ key, Dep.asset key ∈ (eval env f s p).1.top → (s.lookup key).isSome = true)
+    (hag : ∀ d ∈ (eval env f s p).1.top, AgreeOn env env' s t d) :
+    (eval env' f t p).2 = (eval env f s p).2 ∧ (eval env' f t p).1.top = (eval env f s p).1.top ∧
+    (eval env f s p).1.map = s.map ∧ (eval env' f t p).1.map = t.map := by
+  have hh := hitRun_of_plain hhot f p s ds rs hp hs hcached
+  obtain ⟨h1, h2, h3⟩ := eval_readset hS hS' hL f p s t ds rs rt hs ht hh hag
+  exact ⟨h2, h3, (hitRun_frame env f p s ds rs hs hh).2.2, (hitRun_frame env' f p t ds rt ht h1).2.2⟩
 
 end AmVerif.Model
